@@ -127,6 +127,9 @@ def trusted_scan(text, table):
                 if m2:
                     items.append(f'external_body {m2.group(1)} {m2.group(2)}')
                     break
+        m = re.search(r'\baxiom\s+fn\s+(\w+)', code)
+        if m:
+            items.append('axiom fn ' + m.group(1))
         m = re.search(r'\buninterp\s+spec\s+fn\s+(\w+)', code)
         if m:
             items.append('uninterp spec fn ' + m.group(1))
